@@ -221,6 +221,8 @@ class QuantityMachine(Machine):
         self.mode = self.cfg["prop"]
         self.inplace_seen = False
         self.abstract = "p0"
+        from scinumtools.units import Unit
+        self.acc = Unit()          # one long-lived accessor per run
         self._counter = 0
         self.last_slot = None
 
@@ -233,6 +235,8 @@ class QuantityMachine(Machine):
             r = rng.random()
             if r < 0.1:
                 return 0.0
+            if r < 0.13 and kind != "decimal":
+                return rng.choice([float("inf"), float("nan"), float("-inf")])
             if r < 0.35:
                 return float(rng.choice([1, 2, 3, 5, 10, 30, 45, 100, -1, -2, -7]))
             m = rng.uniform(1, 10) * 10 ** rng.randint(-3, 4)
@@ -323,6 +327,8 @@ class QuantityMachine(Machine):
             op = {"op": "query", "name": name, "a": a}
             if name in ("value_unit", "value_dtype"):
                 op["unit"] = self._target_unit(rng, fam)
+            if name == "value_dtype":
+                op["dtype"] = rng.choice(["float", "int", "str-int", "float32"])
         else:
             op = self._gen_inplace(rng, a)
         # results alias their operands only visibly after a later in-place operation:
@@ -404,6 +410,19 @@ class QuantityMachine(Machine):
 
     def _gen_c04(self, rng):
         cfg = self.cfg
+        if self.pool and rng.random() < 0.06:
+            # derived objects that share state with a pool member are rebased or converted in
+            # place; the member's own conversions must not notice
+            return {"op": "alias_inplace", "a": rng.randrange(len(self.pool)),
+                    "derive": rng.choice(["add_zero", "neg", "copy", "getitem"]),
+                    "what": rng.choice(["rebase", "rebase", "to_origin"])}
+        if rng.random() < 0.05:
+            # the Unit() accessor hands out quantities; converting one of them in place must
+            # not change what the accessor stands for later
+            sym = rng.choice(["km", "cm", "m", "s", "ms", "kg", "g", "J", "erg", "N", "W", "Hz"])
+            fam = {"km": "m", "cm": "m", "m": "km", "s": "ms", "ms": "s", "kg": "g", "g": "kg",
+                   "J": "erg", "erg": "J", "N": "dyn", "W": "mW", "Hz": "kHz"}[sym]
+            return {"op": "acc_poke", "sym": sym, "to": fam}
         if cfg.get("custom_scopes") and rng.random() < 0.08:
             # conversions to and from a temporary custom unit; the symbols recur with other
             # magnitudes and dimensions in later scopes of the same run
@@ -487,7 +506,7 @@ class QuantityMachine(Machine):
         if terms is None:
             terms = [list(t) for t in led["origin"]]
         return {"op": "conv", "a": a, "how": how, "terms": terms, "style": rng.randint(0, 1),
-                "expect": "ok"}
+                "expect": "ok", "acc": rng.random() < 0.3}
 
     @staticmethod
     def _relation(d1, d2, bare=False):
@@ -628,7 +647,10 @@ class QuantityMachine(Machine):
                     elif name == "value_unit":
                         a.value(op["unit"])
                     elif name == "value_dtype":
-                        a.value(op["unit"], dtype=float)
+                        # a query whose type cast may fail after the conversion succeeded
+                        dt = {"float": float, "int": int, "str-int": "int",
+                              "float32": np.float32}[op.get("dtype", "float")]
+                        a.value(op["unit"], dtype=dt)
                     elif name == "units":
                         a.units()
                     elif name == "abse":
@@ -768,6 +790,35 @@ class QuantityMachine(Machine):
             return "new", text
         if kind == "custom_scope":
             return self._apply_custom_scope(op)
+        if kind == "acc_poke":
+            try:
+                getattr(self.acc, op["sym"]).to(op["to"])
+            except Exception as e:
+                return "acc_poke_failed", type(e).__name__
+            return "acc_poked", [op["sym"], op["to"]]
+        if kind == "alias_inplace":
+            if not self.pool:
+                return "skip", None
+            import copy as _copy
+            q = self._slot(op["a"])["q"]
+            led = self._slot(op["a"])["led"]
+            try:
+                with np.errstate(all="ignore"):
+                    if op["derive"] == "add_zero":
+                        t = q + Quantity(0, q.units())
+                    elif op["derive"] == "neg":
+                        t = -q
+                    elif op["derive"] == "getitem" and isinstance(q.value(), np.ndarray):
+                        t = q[0]
+                    else:
+                        t = _copy.copy(q)
+                    if op["what"] == "rebase":
+                        t.rebase()
+                    elif led is not None:
+                        t.to(UM.text(led["origin"], 0))
+            except Exception as e:
+                return "alias_failed", type(e).__name__
+            return "alias_done", [op["derive"], op["what"]]
         if kind != "conv" or not self.pool:
             return "skip", None
         e = self._slot(op["a"])
@@ -821,12 +872,19 @@ class QuantityMachine(Machine):
             if not np.all(np.isfinite(want)) or np.any(
                     (np.abs(want) > 1e290) | ((np.abs(want) < 1e-290) & (want != 0))):
                 return "skip_range", None
+            target = text
+            if op.get("acc") and len(terms) == 1 and terms[0][2:] == [1, 1] and \
+                    (terms[0][0] + terms[0][1]).isidentifier():
+                target = getattr(self.acc, terms[0][0] + terms[0][1])   # Unit().km as target
+                self.stats.probe("accessor_unit_as_target")
             try:
-                if op["how"] == "value":
+                if op["how"] == "value" and target is text:
                     got = q.value(text)
                 else:
-                    q.to(text)
+                    q.to(target)
                     got = q.value()
+                    if op["how"] == "value":
+                        op = dict(op, how="to")      # value() takes no Quantity: done in place
             except Exception as ex:
                 raise Violation("same_dimension_conversion_refused",
                                 {"from": led["text"], "to": text, "relation": rel,
